@@ -9,7 +9,8 @@ RULE = ("eps-NFA/NFA/DFA cases over regex-safe token symbols ('a','b','ab','x_1'
         "states, empty start/final sets, start=final, self loops, parallel edges, eps edges, all state value classes "
         "incl. order-injection keys and shuffled construction order; to_regex() judged by exact equivalence of "
         "result.to_epsilon_nfa() with the receiver and by result.accepts on all words <=3. "
-        "Non-trivial: >=2 transitions and a non-empty, non-universal language; distinct = canonical case hash.")
+        "Non-trivial: >=2 transitions and a non-empty, non-universal language; distinct = canonical case hash."
+        " Later additions: sparse automata of eleven to sixteen states, Thompson automata of longer texts, states left by a plain epsilon move on a detour next to a direct transition.")
 ASSUMPTIONS = ["symbols are plain tokens (no metacharacter, no blank), as the property's quantifier says"]
 TIERS = {
     "quick": {"workers": 8, "random": 1500},
@@ -109,6 +110,40 @@ def sparse_large_case(rng):
     return c
 
 
+def detour_case(rng):
+    """three to five ordinary states plus one or two states that are left by a plain epsilon move only (no loop), each
+    on a detour next to a direct transition between the same two states; now and then the start state's loop and the
+    way back from a final state carry the same symbol"""
+    n0 = rng.randint(2, 4)
+    k = 2
+    trans = []
+    for _ in range(rng.randint(1, n0 + 1)):
+        trans.append([rng.randrange(n0), rng.randrange(k), rng.randrange(n0)])
+    n = n0
+    for _ in range(rng.choice([1, 1, 2])):
+        p_, succ = rng.randrange(n0), rng.randrange(n0)
+        q = n
+        n += 1
+        a = rng.randrange(k)
+        trans.append([p_, a, q])
+        trans.append([q, gfa.EPSID, succ])
+        trans.append([p_, rng.choice([a, 1 - a, 1 - a]), succ])         # the direct way, next to the detour
+    finals = sorted({rng.randrange(n0) for _ in range(rng.choice([1, 1, 2]))})
+    if rng.random() < 0.4:
+        a = rng.randrange(k)
+        trans.append([0, a, 0])
+        trans.append([finals[0], a, 0])
+    uniq = []
+    for t in trans:
+        if t not in uniq:
+            uniq.append(t)
+    c = {"kind": "enfa", "n": n, "k": k, "start": [0] if rng.random() < 0.8 else sorted({0, rng.randrange(n0)}),
+         "final": finals, "trans": uniq, "extra": [], "vc": rng.choice(["int", "str"]), "token": True}
+    if rng.random() < 0.6:
+        c["shuffle"] = rng.randrange(1 << 30)
+    return c
+
+
 SCALE_TEXTS = ["(a|b)* a b (a|b)", "(a b|b a)* (a|b) a", "a (b a)* b (a|b)* a", "((a|b) (a|b))* a", "(a* b)* a (b|a a)*"]
 
 
@@ -120,8 +155,12 @@ def plan(tier, rng, sl, nslices, stats):
         for text in SCALE_TEXTS:
             yield {"kind": "enfa", "from_regex": text, "vc": "thompson", "trans": [], "n": 0, "k": 2}
     for _ in range(cfg["random"]):
-        if rng.random() < 0.15:
+        r_ = rng.random()
+        if r_ < 0.15:
             yield gfa.random_loop_case(rng, vcs=["int", "str", "reservedfa"])
+            continue
+        if r_ < 0.25:
+            yield detour_case(rng)
             continue
         c = gfa.random_case(rng, max_states=rng.choice([2, 3, 4, 5]), token=True)
         if len(c["trans"]) > 9:      # state elimination output grows exponentially with density
